@@ -74,6 +74,9 @@ stats! {
     disjoint_big,
     relocations,
     twin_queries,
+    order_checks_across_quiet_mut_calls,
+    nan_unchecked_inserts,
+    nan_bulk_ops,
     shared_start_queries,
     overflow_probes,
     overflow_probes_after_removal,
